@@ -11,11 +11,10 @@ pub struct Mut {
 
 impl Mut {
     pub(crate) fn string(&self, depth: u8) -> String {
-        format!(
-            "mut {} {}",
-            self.var_type,
-            self.variable.read().unwrap().debug(depth)
-        )
+        // copy the content out first: formatting a cell that (transitively) contains itself must not
+        // take the same lock again while a writer is waiting for it
+        let variable = self.variable.read().unwrap().clone();
+        format!("mut {} {}", self.var_type, variable.debug(depth))
     }
 }
 
